@@ -1095,6 +1095,43 @@ fn cascade(r: &mut Rng, k: usize) -> B {
 	b
 }
 
+/// a large method made of segments `filler; jump-or-switch`, all targets are segment starts; one span of segments is
+/// sized so that jumps across it sit right at the `i16` limit
+fn random_large(r: &mut Rng, out: &mut Out) -> B {
+	let m = r.range(2, 10);
+	let mut sizes: Vec<usize> = (0..m).map(|_| r.below(40)).collect();
+	let a = r.below(m);
+	let b = r.range(a, m - 1);
+	let inner: usize = sizes[a..=b].iter().sum::<usize>() + 5 * (b - a + 1);
+	let want = 32740 + r.below(60);
+	if want > inner { sizes[r.range(a, b)] += want - inner; }
+	let total: usize = sizes.iter().sum::<usize>() + 8 * m;
+	let budget = if r.chance(1, 20) { 65600 + r.below(300) } else { 33000 + r.below(32400) };
+	if budget > total { let j = r.below(m); if j < a || j > b || r.chance(1, 4) { sizes[j] += budget - total; } }
+	let mut b_ = B::new();
+	let mut starts = Vec::new();
+	let mut holes = Vec::new();
+	for j in 0..m {
+		starts.push(b_.n);
+		b_.filler(sizes[j], r.below(3));
+		holes.push(b_.hole());
+	}
+	starts.push(b_.push(ret_insn()));
+	for h in holes {
+		let t = |r: &mut Rng| starts[r.below(starts.len())];
+		let insn = match r.below(10) {
+			0..=4 => jump(r.below(16), t(r)),
+			5 | 6 => jump(16, t(r)),
+			7 => jump(17, t(r)),
+			8 => { let n = r.range(1, 3); sx("ts", vec![Sexp::nat(t(r)), Sexp::int(3), Sexp::int(3 + n as i64 - 1), Sexp::list((0..n).map(|_| Sexp::nat(t(r))).collect())]) }
+			_ => { let n = r.below(3); sx("ls", vec![Sexp::nat(t(r)), Sexp::list((0..n).map(|i| Sexp::list(vec![Sexp::int(i as i64 * 7 - 3), Sexp::nat(t(r))])).collect())]) }
+		};
+		b_.fill(h, insn);
+	}
+	out.stats.hit("stream:random-large");
+	b_
+}
+
 fn hex(b: &[u8]) -> Sexp { Sexp::bytes(b) }
 
 /// a small class assembled by hand: `C.m()V` = `k` nops, `iconst_0; ifeq L; nop; L: return`, optionally with a StackMapTable
@@ -1242,6 +1279,19 @@ fn gen(r: &mut Rng, tier: Tier, out: &mut Out) {
 		b.fill(j, jump(16 + r.below(2), t));
 		out.stats.hit("stream:backward-over-growing");
 		emit_code(out, &b, true);
+	}
+
+	// random large methods: several jumps and switches between segment starts, one span at the i16 limit
+	for _ in 0..(if thorough { 1500 } else { 40 }) {
+		let b = random_large(r, out);
+		let n = b.n;
+		if r.chance(1, 3) {
+			// with tables reaching over the whole method
+			let x = Sexp::list(vec![Sexp::list(vec![Sexp::nat(0), Sexp::nat(n), Sexp::nat(n - 1), Sexp::list(vec![Sexp::str("E")])])]);
+			let l = Sexp::list(vec![Sexp::list(vec![Sexp::list(vec![Sexp::nat(0), Sexp::nat(1)]), Sexp::list(vec![Sexp::nat(n - 1), Sexp::nat(9)])])]);
+			let v = Sexp::list(vec![Sexp::list(vec![Sexp::list(vec![Sexp::nat(r.below(n)), Sexp::nat(n), Sexp::str("v"), Sexp::list(vec![Sexp::str("I")]), Sexp::list(vec![]), Sexp::nat(2)])])]);
+			emit(out, b.insns(), x, l, v, true);
+		} else { emit_code(out, &b, true); }
 	}
 
 	// ---- 6. constant pool: ldc / ldc_w around index 255, two-slot entries around it
